@@ -498,8 +498,23 @@ func (g *Gen) apiPlmn() (int, int) {
 func genUePolicyAPI(g *Gen, w *bufio.Writer, n int) {
 	for i := 0; i < n; i++ {
 		var ss []string
+		// every other list draws its PLMNs from a pool around one PLMN: the same PLMN again, and PLMNs that differ from it in the
+		// third MCC digit or the third MNC digit only (octet 2 of the three), so that neighbouring sublists are equal or nearly so
+		var pool [][2]int
+		if i%2 == 1 {
+			m := 100 + g.Intn(900)
+			c := 100 + g.Intn(900)
+			pool = [][2]int{{m, c}, {m, c}, {m - m%10 + (m+1)%10, c}, {m, c - c%10 + (c+3)%10}, {m, c / 10}}
+		}
+		plmn := func() (int, int) {
+			if pool != nil {
+				p := pool[g.Intn(len(pool))]
+				return p[0], p[1]
+			}
+			return g.apiPlmn()
+		}
 		for k := g.Intn(4); k > 0; k-- {
-			mcc, mnc := g.apiPlmn()
+			mcc, mnc := plmn()
 			var is []string
 			for j := g.Intn(4); j > 0; j-- {
 				is = append(is, fmt.Sprintf("%d/%d/%s", []int{0, 0, 2, 7, 65535}[g.Intn(5)], g.edge16(), g.apiParts()))
@@ -509,7 +524,7 @@ func genUePolicyAPI(g *Gen, w *bufio.Writer, n int) {
 		fmt.Fprintf(w, "upc apil %s\n", joinL(ss, "|"))
 		ss = nil
 		for k := g.Intn(4); k > 0; k-- {
-			mcc, mnc := g.apiPlmn()
+			mcc, mnc := plmn()
 			var rs []string
 			for j := g.Intn(5); j > 0; j-- {
 				rs = append(rs, fmt.Sprintf("%d.%d", g.edge16(), g.edge16()))
